@@ -52,6 +52,11 @@ Fixpoint residue_is_blank (s : str) (cursor : nat) : bool :=
            end
   end.
 
+(** Everything in front of [pos] is spaces and tabs (the position is on the first line of the file and
+    that line is blank so far): [content.bytes().take(pos).all(blank)] in format_block and in
+    BlockIndentRemover. *)
+Definition all_blank_before (s : str) (pos : nat) : bool := forallb is_blank (firstn pos s).
+
 (** EmptyLineRemover::format *)
 Definition empty_line_remover (s : str) (pos : nat) : res range :=
   if negb (is_boundary s pos) then Panic
@@ -81,11 +86,15 @@ Definition next_line_break_remover (s : str) (pos : nat) : res range :=
 Definition seam_formatters : list (str -> nat -> res range) :=
   [indent_remover; empty_line_remover; prev_line_break_remover; next_line_break_remover].
 
-(** format_block *)
-Definition format_block (s : str) (pos : nat) : res range :=
+(** format_block: the hull of the four seam ranges; when a line break is removed (the hull ends
+    behind [pos]) and only blanks stand between the start of the file and the hull, they go too. *)
+Definition seam_hull_of (s : str) (pos : nat) : res range :=
   foldM (fun (r : range) f =>
            '(a, b) <- f s pos ;;
            Ok (Nat.min a (fst r), Nat.max b (snd r))) seam_formatters (pos, pos).
+Definition format_block (s : str) (pos : nat) : res range :=
+  r <- seam_hull_of s pos ;;
+  if (pos <? snd r) && all_blank_before s (fst r) then Ok (0, snd r) else Ok r.
 
 (** block_indent_remover::get_indent_len *)
 Definition get_indent_len (s : str) (pos : nat) : res nat :=
@@ -126,7 +135,7 @@ Fixpoint block_loop (fuel : nat) (s : str) (end_pos current_pos ofs len : nat)
 Definition block_indent_remover (s : str) (start_pos end_pos : nat) : res (list range) :=
   ofs <- match find_prev_lb s start_pos true with
          | Some pos => x <- csub start_pos pos ;; csub x 1
-         | None => Ok 0
+         | None => Ok (if all_blank_before s start_pos then start_pos else 0)
          end ;;
   let current_pos := match find_next_lb s start_pos false with
                      | Some pos => pos + 1
